@@ -241,8 +241,8 @@ def only_through_members(m, E, f, cls):
         if not m.has(tg):
             return False
         g = m.func(tg)
-        if class_of(g) != cls or g.name == f.name:
-            return False
+        if class_of(g) != cls or g.name == f.name or g.access != 'public':
+            return False        # (a private helper need not preserve the invariant by itself: its caller is analysed with it inlined)
     return True
 
 
